@@ -158,5 +158,13 @@ func vh_compress_negotiation() {
 		}
 	}
 	vAssert((conn.compressor != nil) == advertised, "C18/negotiation/compressor-dropped-unless-advertised")
+	// C03: every later request frame of this connection is built with conn.compressor (Conn.exec): requests are
+	// only expressible in the negotiated version/options if that is exactly what STARTUP announced
+	if len(vWrites) == 1 {
+		if st, ok := vWrites[0].(*writeStartupFrame); ok {
+			_, announced := st.opts["COMPRESSION"]
+			vAssert((conn.compressor != nil) == announced, "C03/negotiation/requests-are-compressed-only-if-startup-announced-it")
+		}
+	}
 	vObserve("adv", advertised)
 }
